@@ -248,7 +248,7 @@ MapRule(dl) == IF IsMap(dl) /\ dl.mapkey \notin MapKeyOK THEN {"V-map-key"} ELSE
    V-default-type      protoc: Expected integer for field default value. / Expected "true" or "false". /
                                Expected string for field default value. *)
 ScalarDefaultOK(s, v) ==
-  CASE s \in IntScalars -> v = "7" [] s = "bool" -> v = "true" [] s \in {"string", "bytes"} -> v = "hi"
+  CASE s \in IntScalars -> v = "7" [] s = "bool" -> v = "true" [] s = "string" -> v = "hi" [] s = "bytes" -> v \in {"hi", "del"}
     [] s \in {"float", "double"} -> v \in {"7", "0.1", "1e30"}
     [] OTHER -> FALSE
 DefaultRule(F, dl) ==
@@ -441,7 +441,9 @@ LabelD(dl) == IF dl.label = "repeated" \/ IsMap(dl) THEN "LABEL_REPEATED"
    as spelled, also when it is the second alias of a number) are kept; a float / double default is
    printed by SimpleFtoa / SimpleDtoa, the shortest text that reads back as the same float32 / float64:
    0.1 stays "0.1" for both types, 1e30 becomes "1e+30" (C exponent form).  Table over the generator values. *)
-DefaultText(v) == IF v = "1e30" THEN "1e+30" ELSE v
+(* del (bytes fields only) is written "a\x7f\001" in the source: descriptor.proto stores a bytes default C-escaped,
+   and protoc's CEscape writes every byte outside 0x20..0x7e - DEL included - as a three-digit octal escape *)
+DefaultText(v) == IF v = "1e30" THEN "1e+30" ELSE IF v = "del" THEN "a\\177\\001" ELSE v
 
 (* oneofPos: 0 = not in a oneof, else 1-based position of its oneof declaration *)
 FieldD(ws, env, g, d, oneofPos) ==
